@@ -10,6 +10,8 @@ pub mod c03;
 pub mod c04;
 pub mod c05;
 pub mod c06;
+pub mod c08;
+pub mod c15;
 pub mod c18;
 
 pub fn meta(args: &Args, rule: &str, assumptions: &[&str]) -> Meta {
@@ -32,6 +34,8 @@ pub fn dispatch(args: &Args) -> i32 {
         "C04" => c04::run(args),
         "C05" => c05::run(args),
         "C06" => c06::run(args),
+        "C08" => c08::run(args),
+        "C15" => c15::run(args),
         "C18" => c18::run(args),
         other => {
             eprintln!("unknown check {other}");
